@@ -74,11 +74,16 @@ def cl_case(draw):
     shape = draw(gen.shapes((nd,), max2=12, max3=6))
     ref = draw(st.one_of(gen.box_map(shape, k=3), gen.free_map(shape, k=1, density=1)))
     pred = draw(st.one_of(gen.derived_pred(ref), gen.box_map(shape, k=3)))
-    sel = draw(st.booleans())
+    sel = draw(st.integers(0, 2))
     d = {"kind": "cl", "layout": draw(st.sampled_from(["C", "C", "F", "T", "neg"])), "dtype": draw(st.sampled_from(["uint8", "bool", "int64"])), "ref": gen.binar(ref).tolist(), "pred": gen.binar(pred).tolist()}
-    if sel and d["dtype"] != "bool":
+    if sel == 1 and d["dtype"] != "bool":
         d["ref_idx"] = 1
         d["pred_idx"] = 1
+    elif sel == 2 and d["dtype"] != "bool":
+        # selection of one label out of a map holding several instances
+        d["ref"], d["pred"] = ref.tolist(), pred.tolist()
+        d["ref_idx"] = draw(st.integers(1, 3))
+        d["pred_idx"] = draw(st.integers(1, 3))
     return d
 
 
@@ -103,6 +108,7 @@ def _arrays(case):
 
 def check(case, stats):
     from panoptica.metrics import Metric
+    import panoptica.metrics as pm
 
     ref, pred = _arrays(case)
     kind = case["kind"]
@@ -180,14 +186,26 @@ def check(case, stats):
         got_rvd = float(call("RVD", ref, pred, ref_idx, pred_idx))
         if not H.same_value(got_rvd, want_rvd, TOL):
             raise Violation(f"RVD={got_rvd!r}, definition gives {want_rvd!r} (|P|={nP},|R|={nR})")
+    # the instance-level functions the Metric members wrap take the two labels themselves
+    if ref_idx is not None and not isinstance(pred_idx, list) and kind == "sel":
+        stats.count("instance_level_functions_called")
+        direct = []
+        if nU > 0:
+            direct += [("_compute_instance_iou", nI / nU), ("_compute_instance_volumetric_dice", 2 * nI / (nR + nP))]
+        if nR > 0:
+            direct += [("_compute_instance_relative_volume_difference", (nP - nR) / nR)]
+        for fn, want in direct:
+            got = float(H.lib_call(getattr(pm, fn), ref, pred, ref_idx, pred_idx))
+            if not H.same_value(got, want, TOL):
+                raise Violation(f"{fn}(ref, pred, {ref_idx}, {pred_idx})={got!r}, definition gives {want!r} (|I|={nI},|R|={nR},|P|={nP})")
     else:
         stats.count("undefined:rvd_empty_ref")
 
     if kind == "cl":
         from skimage.morphology import skeletonize
 
-        rb = np.array(case["ref"]) != 0
-        pb = np.array(case["pred"]) != 0
+        rb = (np.array(case["ref"]) != 0) if ref_idx is None else (np.array(case["ref"]) == ref_idx)
+        pb = (np.array(case["pred"]) != 0) if pred_idx is None else (np.array(case["pred"]) == pred_idx)
         sr = skeletonize(rb) != 0
         sp = skeletonize(pb) != 0
         if sr.sum() == 0 or sp.sum() == 0:
@@ -202,4 +220,8 @@ def check(case, stats):
         got = float(call("clDSC", ref, pred, ref_idx, pred_idx))
         if not H.same_value(got, want, 1e-12):
             raise Violation(f"clDice={got!r}, harmonic mean of skeleton coverages gives {want!r} (tprec={tprec}, tsens={tsens})")
+        if ref_idx is not None:
+            got = float(H.lib_call(pm._compute_centerline_dice, ref, pred, ref_idx, pred_idx))
+            if not H.same_value(got, want, 1e-12):
+                raise Violation(f"_compute_centerline_dice(ref, pred, {ref_idx}, {pred_idx})={got!r}, harmonic mean of skeleton coverages gives {want!r}")
         stats.count("cldice_compared")
